@@ -222,6 +222,10 @@ def load(verbose=False):
             with open(cfile, 'rb') as f:
                 facts = pickle.load(f)
             facts['cache'] = 'hit'
+            try:
+                os.utime(cdir, None)
+            except OSError:
+                pass
             facts['tree_hash'] = h
             return facts
         except Exception:
@@ -236,7 +240,7 @@ def load(verbose=False):
         os.replace(tmp, cfile)
         # keep the cache small: drop everything but the 6 most recent trees
         ents = sorted((os.path.getmtime(os.path.join(CACHE, d)), d) for d in os.listdir(CACHE))
-        for _, d in ents[:-6]:
+        for _, d in ents[:-10]:
             shutil.rmtree(os.path.join(CACHE, d), ignore_errors=True)
     except OSError:
         pass
